@@ -17,7 +17,10 @@ RainRows(P, ra, nr, drop) == {<<ra + i * P, i + 1>> : i \in (0..(nr - 1)) \ {dro
 EtRows(P, ea, ne, drop)   == {<<ea + i * P, 3 * i + 2>> : i \in (0..(ne - 1)) \ {drop}}
 (* level values are quadratic in the sample index: interpolating between   *)
 (* the wrong pair of samples gives a different number                      *)
-LevRows(Q, za, nz, miss)  == {<<za + k * Q, ((k * k) % 11) + k>> : k \in (0..(nz - 1)) \ miss}
+(* slip >= 1: the logger was re-synchronised once -- every row from index slip on comes one tick late,   *)
+(* so one spacing is Q + 1: longer than the record's step but not a multiple of it (still a gap)        *)
+LevRows(Q, za, nz, miss, slip) ==
+    {<<za + k * Q + (IF slip >= 1 /\ k >= slip THEN 1 ELSE 0), ((k * k) % 11) + k>> : k \in (0..(nz - 1)) \ miss}
 
 Blocks(nz) ==   \* sets of interior indices missing: none, one block, two blocks
     {{}} \cup {a..b : a \in 1..(nz - 2), b \in 1..(nz - 2)}
@@ -29,18 +32,19 @@ NoInput == [rain |-> {}, et |-> {}, lev |-> {}]
 Init ==
     \E P \in Ps, Q \in Qs, ra \in 0..MaxRa, nr \in NRs, za \in 0..MaxZa, nz \in NZs :
         /\ cfg = [P |-> P, Q |-> Q, ra |-> ra, nr |-> nr, za |-> za, nz |-> nz, miss |-> {},
-                  rdrop |-> -2, edrop |-> -2]
+                  rdrop |-> -2, edrop |-> -2, slip |-> -1]
         /\ in = NoInput
 
 Pick ==
     /\ in = NoInput
     /\ \E miss \in Blocks(cfg.nz), rdrop \in {-1} \cup (1..(cfg.nr - 2)),
-          edrop \in {-1, 0, 1, cfg.nr - 1, cfg.nr} :
+          edrop \in {-1, 0, 1, cfg.nr - 1, cfg.nr}, slip \in {-1} \cup (2..(cfg.nz - 2)) :
         /\ Cardinality((0..(cfg.nz - 1)) \ miss) >= 2
-        /\ cfg' = [cfg EXCEPT !.miss = miss, !.rdrop = rdrop, !.edrop = edrop]
+        /\ slip >= 1 => (miss = {} /\ rdrop = -1 /\ edrop = -1 /\ cfg.Q >= 2)    \* one irregularity at a time
+        /\ cfg' = [cfg EXCEPT !.miss = miss, !.rdrop = rdrop, !.edrop = edrop, !.slip = slip]
         /\ in' = [rain |-> RainRows(cfg.P, cfg.ra, cfg.nr, rdrop),
                   et   |-> EtRows(cfg.P, cfg.ra - cfg.P, cfg.nr + 3, IF edrop = -1 THEN -1 ELSE edrop + 1),
-                  lev  |-> LevRows(cfg.Q, cfg.za, cfg.nz, miss)]
+                  lev  |-> LevRows(cfg.Q, cfg.za, cfg.nz, miss, slip)]
 
 Next == Pick \/ (in # NoInput /\ UNCHANGED vars)
 Spec == Init /\ [][Next]_vars
